@@ -16,6 +16,21 @@ def generate(seed, tier, focus="keep"):
             exp = "true" if w.lower() in TRUE_WORDS else "false"
             lines.append("cfg keep %s # spec=C13 eq %s" % (hx(w), exp))
             g.count("keep_words")
+    elif focus == "timeout":
+        # the dialog timeout a service gets (C15: "the configured dialog timeout"): its own setting when there is one, the
+        # environment's default only when there is none, 1200 otherwise
+        for cfgv in [0, 1, 5, 600, 1200, 86400, -1]:
+            for env in [None, "1", "600", "3600", "0", "-5", "+90", "007", "abc", "", "12s", " 30", "99999999999999999999", "1200"]:
+                if cfgv > 0:
+                    exp = str(cfgv)
+                elif env is None:
+                    exp = "1200"
+                else:
+                    import re as _re
+                    mm = _re.fullmatch(r"[+-]?[0-9]+", env)
+                    exp = str(int(env)) if (mm and -2**63 <= int(env) < 2**63) else "1200"
+                lines.append("cfg deftimeout %d %s # spec=C15 eq %s" % (cfgv, "~" if env is None else hx(env) if env != "" else "-", exp))
+                g.count("dialog_timeout_resolutions")
     else:
         # host tables: a name defined globally and again in the service (the service's entry wins), only globally, only
         # in the service, nowhere
